@@ -409,7 +409,9 @@ pub fn c17(tier: Tier, report: &mut Report) {
         let mut viols: Vec<Violation> = vec![];
         for i in s..e {
             let num = nums[i as usize];
-            let dec = num.to_string();
+            // numbers below 200 also written with one and two leading zeros (`01st`, `0011th`)
+            let spellings: Vec<String> = if num < 200 { vec![num.to_string(), format!("0{num}"), format!("00{num}")] } else { vec![num.to_string()] };
+            for dec in spellings {
             let want = ref_suffix(&dec);
             for sfx in suffixes {
                 for case in 0..4 {
@@ -489,6 +491,7 @@ pub fn c17(tier: Tier, report: &mut Report) {
                         }
                     }
                 }
+            }
             }
         }
         (evals, flagged, viols)
